@@ -99,7 +99,8 @@ def run_sharded(kvh, sub, infile, outfile, extra=None, nproc=None, timeout=3000)
                 p.kill()
                 raise Inconclusive('kvh %s timed out' % sub)
             if p.returncode != 0:
-                raise Inconclusive('kvh %s failed (%d): %s' % (sub, p.returncode, se.decode(errors='replace')[-3000:]))
+                txt = se.decode(errors='replace')
+                raise Inconclusive('kvh %s failed (%d): %s ... %s' % (sub, p.returncode, txt[:600], txt[-2000:]))
             if os.path.exists(pout):
                 out.write(open(pout).read())
                 os.remove(pout)
